@@ -21,6 +21,7 @@ import (
 
 	badger "github.com/dgraph-io/badger/v4"
 	"github.com/dgraph-io/badger/v4/pb"
+	"github.com/dgraph-io/badger/v4/y"
 	"github.com/dgraph-io/ristretto/v2/z"
 	"google.golang.org/protobuf/proto"
 )
@@ -721,6 +722,9 @@ func (h *hist) xterm() string {
 
 func (c *Ctx) randCfg(h *hist, keys [][]byte, mts uint64, backup bool) streamCfg {
 	cfg := streamCfg{NumGo: 1 + c.Rng.Intn(8), Backup: backup, SlowSend: c.Rng.Intn(4) == 0, DoneMarks: !backup && c.Rng.Intn(3) == 0}
+	if c.Rng.Intn(2) == 0 {
+		cfg.NumGo = 1 + c.Rng.Intn(2) // every producer allocates 32 MiB buffers: keep half of the runs cheap
+	}
 	if h.o.Managed {
 		cfg.ReadTs = 1 + uint64(c.Rng.Intn(int(mts)+2))
 	}
@@ -750,7 +754,15 @@ func runStreamHistory(c *Ctx, p *streamProfile, idx int) (*hist, error) {
 		return nil, err
 	}
 	defer h.close()
-	keys := streamKeys[:4+c.Rng.Intn(len(streamKeys)-4)]
+	keys := append([][]byte{}, streamKeys[:4+c.Rng.Intn(len(streamKeys)-4)]...)
+	// boundary: DB.Ranges uses INTERNAL keys (user key + 8-byte version suffix) as split points;
+	// user keys that are byte-equal to such a split key sit exactly on a range boundary
+	for j := 0; j < 6; j++ {
+		base := keys[c.Rng.Intn(len(keys))]
+		if len(base) < 8 {
+			keys = append(keys, y.KeyWithTs(base, uint64(1+c.Rng.Intn(6))))
+		}
+	}
 	var mts uint64 = 1
 	nextT := 0
 	var chain []backupRec
